@@ -330,8 +330,10 @@ def delegated(ctx):
     c11.selection(ctx)
     # "encryption for a disabled right fails" / "refreshing an issued key succeeds": the status written by update_msk and the one
     # read by mpk() sit on the same (newest) end of a chain, and a stored key comes back with its chains in the order that was signed
-    from . import c04, c13
+    from . import c04, c13, c03
     c04.orientation(ctx)
+    # "key generation / rekey for rights of a freshly added attribute succeed": update_msk gave every new right a secret
+    c03.update_visits_every_right(ctx)
     c13.restricted(ctx, r'(core::UserSecretKey)$', [c13.order, c13.read_loop_keeps_every_element, c13.read_keeps_every_element])
 
 
@@ -437,3 +439,11 @@ def lookups_consistent(ctx):
     consistent across removals (C03.dict-remove-shifts)."""
     from . import c03
     c03.dict_remove_shifts(ctx)
+
+
+@rule('C09', 'instance-is-stateless')
+def instance_is_stateless(ctx):
+    """'Each operation returns an error exactly in the documented situations': the outcome is decided by the arguments of the call, not by what the same instance was used for before. Structurally: the scheme instance holds its random generator and nothing else — no cache, no memo, no static, no
+    thread-local (C19.state-audit)."""
+    from . import c19
+    c19.state_audit(ctx)
